@@ -146,7 +146,7 @@ func (g *chaotic) leaf(t *rapid.T, sc scope) *ast.Node {
 		return ast.N(ast.Desc)
 	default:
 		// a built-in function as a value
-		return ast.VarN(g.builtinName(t))
+		return ast.VarN(g.valueBuiltin(t))
 	}
 }
 
@@ -159,6 +159,23 @@ func (g *chaotic) builtinName(t *rapid.T) string {
 	}
 	sortStrings(names)
 	return rapid.SampledFrom(names).Draw(t, "builtin")
+}
+
+// valueBuiltin is builtinName for positions where the function is used as a
+// value (bare reference, callee of a partial application): a built-in whose
+// argument sizes an allocation ($pad) is left out there, because the number it
+// finally receives ($millis(), a product, ...) cannot be bounded by
+// construction and a padding of 10^12 characters exhausts the memory of an
+// in-process check. $pad is still called directly with a bounded width.
+func (g *chaotic) valueBuiltin(t *rapid.T) string {
+	names := make([]string, 0, len(BuiltinArity))
+	for n := range BuiltinArity {
+		if !g.o.Exclude[n] && len(boundedNumPos[n]) == 0 {
+			names = append(names, n)
+		}
+	}
+	sortStrings(names)
+	return rapid.SampledFrom(names).Draw(t, "builtinValue")
 }
 
 func sortStrings(s []string) {
@@ -193,7 +210,7 @@ func (g *chaotic) boundedNum(t *rapid.T) *ast.Node {
 func (g *chaotic) callee(t *rapid.T, sc scope, depth int) *ast.Node {
 	switch k := g.pick(t, "callee", 12); {
 	case k < 5:
-		return ast.VarN(g.builtinName(t))
+		return ast.VarN(g.valueBuiltin(t))
 	case k < 7 && len(sc.fnVars) > 0:
 		return ast.VarN(rapid.SampledFrom(sc.fnVars).Draw(t, "fnvar"))
 	case k < 9 && depth > 0:
@@ -239,7 +256,7 @@ func (g *chaotic) partial(t *rapid.T, sc scope, depth int) *ast.Node {
 	if len(sc.fnVars) > 0 && g.pick(t, "pf", 2) == 0 {
 		f = ast.VarN(rapid.SampledFrom(sc.fnVars).Draw(t, "fnvar"))
 	} else {
-		f = ast.VarN(g.builtinName(t))
+		f = ast.VarN(g.valueBuiltin(t))
 	}
 	n := rapid.IntRange(1, 3).Draw(t, "pargs")
 	args := make([]*ast.Node, n)
